@@ -431,7 +431,7 @@ class Fn:
         return out
 
     # ---------------------------------------------------------------- origins
-    def origins(self, val, seen=None, outargs=False, stop=None):
+    def origins(self, val, seen=None, outargs=False, stop=None, opaque=None):
         """Backward value origin of an operand (['c'|'m', place] / ['k',..] / ['fn',..]) or a place
         ([local, proj]).  Flow-insensitive over reaching definitions (all definitions of a local
         are considered: a phi).  Returns a set of atoms:
@@ -443,6 +443,7 @@ class Fn:
         """
         if seen is None:
             seen = set()
+        self._opaque = opaque
         if val and isinstance(val[0], str):
             k = val[0]
             if k == "k":
@@ -508,7 +509,8 @@ class Fn:
                 res |= self._origins_rvalue(payload, rest, bb, idx, seen, outargs, stop)
             else:
                 c = payload
-                if is_transparent(c.p) or is_transparent(c.d):
+                op = getattr(self, "_opaque", None)
+                if (is_transparent(c.p) or is_transparent(c.d)) and not (op and any(c.p.endswith(o) or c.d.endswith(o) for o in op)):
                     if c.args:
                         extra = ()
                         if c.p.endswith(">::index") or c.p.endswith(">::index_mut"):
@@ -517,7 +519,7 @@ class Fn:
                         if a[0] in ("c", "m"):
                             res |= self._origins_place(a[1][0], tuple(self._pj(a[1][1])) + extra + rest, seen, outargs, stop)
                         else:
-                            res |= self.origins(a, seen, outargs, stop)
+                            res |= self.origins(a, seen, outargs, stop, getattr(self, '_opaque', None))
                     else:
                         res.add(("call", c.p, bb, self._sym(rest)))
                 else:
@@ -557,7 +559,7 @@ class Fn:
             o = rv[1]
             if o[0] in ("c", "m"):
                 return self._origins_place(o[1][0], tuple(self._pj(o[1][1])) + rest, seen, outargs, stop)
-            return self.origins(o, seen, outargs, stop)
+            return self.origins(o, seen, outargs, stop, getattr(self, '_opaque', None))
         if k in ("ref", "rawptr"):
             p = rv[2]
             return self._origins_place(p[0], tuple(self._pj(p[1])) + rest, seen, outargs, stop)
@@ -565,7 +567,7 @@ class Fn:
             o = rv[2]
             if o[0] in ("c", "m"):
                 return self._origins_place(o[1][0], tuple(self._pj(o[1][1])) + rest, seen, outargs, stop)
-            return self.origins(o, seen, outargs, stop)
+            return self.origins(o, seen, outargs, stop, getattr(self, '_opaque', None))
         if k == "agg":
             kind, name, variant, ops = rv[1], rv[2], rv[3], rv[4]
             if kind in ("closure", "coroutine"):
@@ -583,11 +585,11 @@ class Fn:
                     o = ops[e[1]]
                     if o[0] in ("c", "m"):
                         return self._origins_place(o[1][0], tuple(self._pj(o[1][1])) + r[1:], seen, outargs, stop)
-                    return self.origins(o, seen, outargs, stop)
+                    return self.origins(o, seen, outargs, stop, getattr(self, '_opaque', None))
                 if e[0] in ("i", "ci") and kind == "array":
                     res = set()
                     for o in ops:
-                        res |= self.origins(o, seen, outargs, stop)
+                        res |= self.origins(o, seen, outargs, stop, getattr(self, '_opaque', None))
                     return res
             return {("agg", kind, name, variant, bb, idx, self._sym(rest))}
         if k == "bin":
@@ -597,7 +599,7 @@ class Fn:
         if k == "disc":
             return {("disc", bb, idx)}
         if k == "repeat":
-            return self.origins(rv[1], seen, outargs, stop)
+            return self.origins(rv[1], seen, outargs, stop, getattr(self, '_opaque', None))
         return {("other", k, bb, idx)}
 
     def stmt(self, bb, idx):
